@@ -708,13 +708,22 @@ package diam
 //@   ensures unpinned: curstream(r) == 18446744073709551615
 //@ end
 //@ func (*conn).readMessage(c) (m, err)
-//@   property C19
-//@   requires c != nil && c.server != nil && c.rwc != nil && (c.server.Dict != nil ==> pwf(c.server.Dict))
+//@   property C08 C15 C19
+//@   requires c != nil && c.server != nil && c.rwc != nil
+//@   requires dict_wf: c.server.Dict != nil ==> pwf(c.server.Dict)
 //@   requires buffered: !implements(c.rwc, MultistreamConn) ==> c.buf != nil && c.buf.Reader != nil && 0 <= pos(c.buf.Reader) && pos(c.buf.Reader) <= len(stream(c.buf.Reader)) && !implements(c.buf.Reader, MultistreamReader)
 //@   requires streams_wf: implements(c.rwc, MultistreamConn) ==> implements(c.rwc, MultistreamReader) && forall s uint :: 0 <= pos(substream(c.rwc, s)) && pos(substream(c.rwc, s)) <= len(stream(substream(c.rwc, s)))
 //@   assume default_dictionary_initialised: dict.Default != nil && pwf(dict.Default)
 //@   atcall ReadMessage: [C19] unpinned_before_each_message: implements(c.rwc, MultistreamConn) ==> curstream(c.rwc) == InvalidStreamID
+//@   modifies msgsread(c), lastread(c), lastreaderr(c), reportsatread(c), readattempts(c), pos(any), curstream(any), bufslice(any), bytes(any), inpool(any), fresh
+//@   ghostset msgsread(c) = err == nil ? old(msgsread(c)) + 1 : old(msgsread(c))
+//@   ghostset lastread(c) = err == nil ? m : old(lastread(c))
+//@   ghostset lastreaderr(c) = err
+//@   ghostset readattempts(c) = old(readattempts(c)) + 1
+//@   ghostset reportsatread(c) = reports()
 //@   ensures [C19] nothing_without_error: err == nil <==> m != nil
+//@   ensures [C15] outcome_noted: lastreaderr(c) == err && reportsatread(c) == reports() && readattempts(c) == old(readattempts(c)) + 1
+//@   ensures [C08] counted: msgsread(c) == (err == nil ? old(msgsread(c)) + 1 : old(msgsread(c))) && (err == nil ==> lastread(c) == m)
 //@ end
 //@ func (*conn).dictionary(c) (d)
 //@   property C19
@@ -722,4 +731,56 @@ package diam
 //@   requires c != nil && c.server != nil
 //@   assume default_dictionary_initialised: dict.Default != nil && pwf(dict.Default)
 //@   ensures which: d == (c.server.Dict == nil ? dict.Default : c.server.Dict)
+//@ end
+//@
+//@ # ======================= server.go: the per-connection loop (C08, C15) ======
+//@ func (serverHandler).ServeDIAM(sh, w, m)
+//@   property C08
+//@   requires sh.srv != nil
+//@   ensures [C08] the_configured_handler_once: handlercalls() == old(handlercalls()) + 1 && lastconn() == w && lastmsg() == m
+//@ end
+
+//@ # the deferred function of serve (free variable c): recover, log, close the transport
+//@ func (*conn).serve$1()
+//@   property C15
+//@   requires c != nil && c.rwc != nil
+//@   modifies rwcclosed(c.rwc), fresh
+//@   ensures [C15] transport_closed: rwcclosed(c.rwc) == old(rwcclosed(c.rwc)) + 1
+//@ end
+//@
+//@ func (*conn).serve(c)
+//@   property C08 C15
+//@   requires c != nil && c.server != nil && c.rwc != nil && c.writer != nil
+//@   requires buffered: !implements(c.rwc, MultistreamConn) ==> c.buf != nil
+//@   assume ghost_counter_in_range: 0 <= rwcclosed(c.rwc) && rwcclosed(c.rwc) < 1<<62
+//@   assume default_dictionary_initialised: dict.Default != nil && pwf(dict.Default)
+//@   assumepre readMessage.dict_wf: the index invariant of a dict.Parser (pwf) is maintained by the Parser's own methods, the only code that can write its unexported maps; a handler cannot break it
+//@   assumepre readMessage.buffered: the reader behind the connection and the cursor of its byte stream stay well-formed whatever a handler does with the connection
+//@   assumepre readMessage.streams_wf: as above, for every stream of a multistream association
+//@   ensures [C15] transport_closed_when_the_loop_ends: rwcclosed(c.rwc) > old(rwcclosed(c.rwc))
+//@   ensures [C08] one_handler_call_per_message: handlercalls() - old(handlercalls()) == msgsread(c) - old(msgsread(c))
+//@   ensures [C15] the_loop_ends_on_a_read_error_only: readattempts(c) != old(readattempts(c)) ==> lastreaderr(c) != nil
+//@   ensures [C15] undecodable_input_is_reported: readattempts(c) != old(readattempts(c)) && lastreaderr(c) != io.EOF && lastreaderr(c) != io.ErrUnexpectedEOF && (c.server.Handler == nil || implements(c.server.Handler, ErrorReporter)) ==> reports() == reportsatread(c) + 1
+//@   ensures [C15] end_of_stream_is_not_an_error: readattempts(c) != old(readattempts(c)) && (lastreaderr(c) == io.EOF || lastreaderr(c) == io.ErrUnexpectedEOF) ==> reports() == reportsatread(c)
+//@   loop 0
+//@     invariant [C08] handled_before_the_next_read: handlercalls() - old(handlercalls()) == msgsread(c) - old(msgsread(c))
+//@     invariant [C08] in_arrival_order: msgsread(c) != old(msgsread(c)) ==> lastmsg() == lastread(c) && typeis(lastconn(), *response) && lastconn().(*response) == c.writer
+//@     invariant [C15] still_open: rwcclosed(c.rwc) == old(rwcclosed(c.rwc))
+//@   end
+//@ end
+
+//@ func (*Server).newConn(srv, rwc) (c, err)
+//@   property C08 C15
+//@   requires srv != nil && rwc != nil
+//@   modifies
+//@   ensures [C15] a_connection_object_of_its_own: err == nil && c != nil && fresh(c) && c.server == srv && c.rwc != nil && c.writer != nil && fresh(c.writer) &&
+//@           (!implements(c.rwc, MultistreamConn) ==> c.buf != nil)
+//@ end
+//@
+//@ # The accept loop: a temporary accept error never ends it, every accepted connection gets its own goroutine
+//@ # (the engine checks serve's precondition at the go statement), it returns only with a non-temporary accept error.
+//@ func (*Server).Serve(srv, l) (err)
+//@   property C08 C15
+//@   requires srv != nil && l != nil
+//@   ensures [C15] only_a_permanent_accept_error_stops_the_server: err != nil && !(implements(err, net.Error) && istemporary(err))
 //@ end
